@@ -40,6 +40,7 @@ CAMEL_FIELD_NAMES = ["fooBar", "HTTPStatus", "camelCaseName", "Mixed_Case", "UPP
 MSG_NAMES = ["Foo", "Bar", "Baz", "Item", "Node", "Tree", "Leaf", "Config", "Event", "Record", "Entry2",
              "Point", "Shape", "User", "Order", "Line", "Batch", "Frame", "Packet", "Header"]
 HOSTILE_MSG_NAMES = ["HTTPStatus", "XMLDoc", "Msg2", "A", "IOError2", "DB"]
+ONEOF_NAMES = ["fooBar", "foo_bar", "Variant", "class", "_lead", "oneOf2", "KIND", "type_of", "in"]
 ENUM_NAMES = ["Color", "Kind", "Mode", "Level", "State", "Phase", "Unit", "Tier"]
 ENUM_VALUE_WORDS = ["RED", "GREEN", "BLUE", "ON", "OFF", "LOW", "HIGH", "MID", "OPEN", "CLOSED", "A", "B", "C"]
 PKG_WORDS = ["alpha", "beta", "gamma", "v1", "core", "api"]
@@ -358,7 +359,10 @@ class SchemaGen:
         pool = MSG_NAMES + (HOSTILE_MSG_NAMES if self.names == "hostile" else [])
         name = rng.choice(pool)
         if name.lower() in tn or depth == 0:
-            name = name + str(self.uid())
+            u = str(self.uid())
+            if self.names == "hostile" and rng.random() < 0.3:
+                u = "".join(chr(65 + int(d)) for d in u)  # capitals instead of digits: FooBC, ABD (ends in a capital)
+            name = name + u
         if name.lower() in tn:
             return None
         tn.add(name.lower())
@@ -414,6 +418,11 @@ class SchemaGen:
         nf = rng.randint(0, self.max_fields)
         n_oneofs = rng.choice([0, 0, 1, 1, 2])
         oneof_names = [f"choice{i}" if i else "kind_of" for i in range(n_oneofs)]
+        if self.names in ("keywords", "hostile") and n_oneofs and rng.random() < 0.4:
+            # group names are API (which_one_of(m, name)): camelCase, keywords, leading underscore, two names that only
+            # differ in casing style
+            oneof_names = rng.sample(ONEOF_NAMES, n_oneofs)
+            used_names.update(o.replace("_", "").lower() for o in oneof_names)
         pending_oneof = {o: rng.randint(1, 4) for o in oneof_names}
         for _ in range(nf):
             name = self.field_name(used_names)
